@@ -323,7 +323,8 @@ impl Transport for PciTransport {
             .config_space
             .as_ref()
             .ok_or(Error::ConfigSpaceMissing)?;
-        if config_space.len() * size_of::<u32>() < offset + size_of::<T>() {
+        let config_space_size = config_space.len() * size_of::<u32>();
+        if offset > config_space_size || config_space_size - offset < size_of::<T>() {
             Err(Error::ConfigSpaceTooSmall)
         } else {
             // SAFETY: If we have a config space pointer it must be valid for its length, and we
@@ -355,7 +356,8 @@ impl Transport for PciTransport {
             .config_space
             .as_mut()
             .ok_or(Error::ConfigSpaceMissing)?;
-        if config_space.len() * size_of::<u32>() < offset + size_of::<T>() {
+        let config_space_size = config_space.len() * size_of::<u32>();
+        if offset > config_space_size || config_space_size - offset < size_of::<T>() {
             Err(Error::ConfigSpaceTooSmall)
         } else {
             // SAFETY: If we have a config space pointer it must be valid for its length, and we
